@@ -18,7 +18,7 @@ VERUS_UNITS = {
     "backend": ("units_backend", ["C02", "C03", "C04", "C05", "C07", "C09", "C20", "C01", "C13"]),
     "frontend": ("units_frontend", ["C01", "C02", "C03", "C06", "C07", "C10"]),
     "proxy": ("units_proxy", ["C18", "C06", "C07", "C10", "C09", "C01"]),
-    "misc": ("units_misc", ["C08", "C13", "C14", "C15", "C19", "C05"]),
+    "misc": ("units_misc", ["C08", "C13", "C14", "C15", "C17", "C19", "C05"]),
     "adapters": ("units_adapters", ["C02", "C14", "C11", "C18"]),
     "gpu": ("units_gpu", ["C01", "C06", "C10"]),
     "daemon": ("units_daemon", ["C16"]),
@@ -211,6 +211,10 @@ def run_verus_unit(name, prop, tier, keep=False):
     res["obligations"] = nlabel + nfun + len(myscans)
     scan_bad = 0
     for s in myscans:
+        if not s[2] and len(s) > 4 and s[4] == "undecided":
+            res["status"] = "undecided"
+            res["undecided"] = "anchor lost: %s" % s[3][:160]
+            continue
         if not s[2]:
             scan_bad += 1
             res["failures"].append(dict(engine="scan", unit=name, fn=s[1], label=",".join(s[0]), message="syntactic frame condition violated",
